@@ -87,7 +87,7 @@ impl Run {
             cw20 = s(st, "denom") == "cw20";
             w.app.init_modules(|router, _, storage| {
                 for u in &users {
-                    router.bank.init_balance(storage, u, vec![Coin::new(RICH, STK), Coin::new(RICH, OTH)]).unwrap();
+                    router.bank.init_balance(storage, u, vec![Coin::new(RICH, "USTK"), Coin::new(RICH, STK), Coin::new(RICH, OTH)]).unwrap();
                 }
             });
             let tok_id = w.app.store_code(crate::ics20::FlakyToken::boxed());
@@ -322,6 +322,8 @@ impl Run {
                     let funds: Vec<Coin> = match token.as_str() {
                         "good" => coins(amt, STK),
                         "otherdenom" => coins(amt, OTH),
+                        // a different denomination whose name differs from the staked one only in case
+                        "lookalike" => coins(amt, "USTK"),
                         "two" => vec![Coin::new(amt, OTH), Coin::new(amt, STK)],
                         _ => vec![],
                     };
@@ -465,7 +467,7 @@ pub fn random_run(rng: &mut Rng, run_no: u64, len: usize, out: &mut Out) {
             0..=24 => {
                 let staked = obs["stake"][&who].as_i64().unwrap_or(0);
                 let _ = staked;
-                let token = if run.cw20 { *rng.pick(&["good", "good", "good", "good", "othercw20", "native"]) } else { *rng.pick(&["good", "good", "good", "good", "otherdenom", "two", "none", "goodcw20"]) };
+                let token = if run.cw20 { *rng.pick(&["good", "good", "good", "good", "othercw20", "native"]) } else { *rng.pick(&["good", "good", "good", "good", "good", "otherdenom", "lookalike", "two", "none", "goodcw20"]) };
                 let big = run.sc.u > 1 && run.wdiv > 1 && rng.chance(1, 3);
                 let amt = if big { rng.range(10, 40) } else { rng.range(0, 7) };
                 json!({"act":"bond","by":who,"args":{"amt":amt,"token":token}})
